@@ -202,7 +202,8 @@ class SingleItemEncoder(object):
         if LOG:
             debug.scope.push(type(value).__name__)
             LOG('encoder called for type %s '
-                '<%s>' % (type(value).__name__, value.prettyPrint()))
+                '<%s>' % (type(value).__name__,
+                          value.isValue and value.prettyPrint() or repr(value)))
 
         tagSet = value.tagSet
 
